@@ -180,7 +180,7 @@ def gen_problem(rng, algs, alg_name=None, n=None, box=None, with_constraints=Non
 KEYS_HEX = ["stopval", "ftol_rel", "ftol_abs", "xtol_rel", "maxtime", "clockq", "clock0"]
 KEYS_LIST = ["lb", "ub", "x0", "oc", "xtol_abs", "xw", "dx"]
 KEYS_RAW = ["alg", "n", "obj", "max", "maxeval", "pop", "vs", "seed", "ineq", "eq", "local", "stopat", "setforce", "forceval", "inj", "injc",
-            "runs", "copy", "noobj", "nullx", "nullf", "params", "reseed", "quietx", "hooks", "runanyway", "negobj", "full_n", "fix", "legacy", "nullopt", "gpop", "glocal", "fixall2", "pre", "failalloc"]
+            "runs", "copy", "noobj", "nullx", "nullf", "params", "reseed", "quietx", "hooks", "runanyway", "negobj", "full_n", "fix", "legacy", "nullopt", "gpop", "glocal", "fixall2", "pre", "failalloc", "munge"]
 
 
 def to_line(p):
